@@ -144,10 +144,12 @@ use super::virev::*;
 use super::vtxev::*;
 use super::vval::*;
 
-const INTS: [u32; 12] = [0, 1, 2, 3, 7, 31, 32, 0x7fff_ffff, 0x8000_0000, 0xffff_ffff, 0xffff_fff9, 1000];
-
 fn arg_scalar(rng: &mut Rng, t: T, zero: bool) -> V {
-    let raw = if zero { 0 } else if rng.chance(2, 3) { *rng.pick(&INTS) } else { rng.next() as u32 };
+    // edge values (sx.rs: NaNs, both zeros, infinities, subnormals, FLT_MAX, the conversion limits; INT_MIN / INT_MAX /
+    // UINT_MAX, shift counts around 32) two times out of three, random bits otherwise
+    let edge = rng.chance(2, 3);
+    let r = rng.next() as u32;
+    let raw = if zero { 0 } else if !edge { r } else if t == T::Float { *rng.pick(&FLOAT_EDGES) } else { *rng.pick(&INT_EDGES) };
     match t {
         T::Bool => V::B(raw & 1 == 1),
         T::Int => V::I(raw),
